@@ -77,19 +77,19 @@ def run(tier, replay=None):
             if f.endswith(".xml"):
                 seeds.append(("naming:" + f[:-4], open(os.path.join(repo.REPO, "test", "naming_test", f)).read()))
     rep.set("bounds", {"seeds": [s for s, _ in seeds],
-                       "mutations": "every single structure-aware mutation at every node: attribute delete / set to each of %d tokens / retarget every reference attribute to every named entity; text garble; element delete / duplicate / swap / re-parent (down, up) / rename to each of %d known tags / empty; truncation at every line end"
+                       "mutations": "every single structure-aware mutation at every node: attribute delete / set to each of %d tokens / add every absent attribute of the 25-name vocabulary with 1-6 values (quick: on the seeds traits_test_schema and kinds) / retarget every reference attribute to every named entity; text garble; element delete / duplicate / swap / re-parent (down, up) / rename to each of %d known tags / empty; truncation at every line end"
                                     % (len(xmlmut.TOKENS_QUICK if quick else xmlmut.TOKENS), len(xmlmut.TAGS)),
                        "argv": "every argument vector of length <= %d over {--schema-name, --output-dir, --inject-include, --version, --help, --, -x, '', good.xml, missing.xml, dir/}" % (3 if quick else 4),
-                       "includes": "self include, mutual include, missing file, directory, include of a valid file", "raw_inputs": [n for n, _ in xmlmut.RAW_INPUTS],
+                       "includes": "self include, mutual include, missing file, directory, include of a valid file; every include graph over a root and two fragments with <= 2 includes each over %d targets" % (3 if quick else 5), "raw_inputs": [n for n, _ in xmlmut.RAW_INPUTS],
                        "build": "clang++ -O1 ASan+UBSan, sbeppc's own asserts and _GLIBCXX_ASSERTIONS on; 20 s limit per run"})
     jobs = []    # (label, opclass, argv builder)
     cases_dir = os.path.join(wd, "cases")
     shutil.rmtree(cases_dir, ignore_errors=True)
     os.makedirs(cases_dir)
     n = 0
-    for sname, text in seeds:
+    for si, (sname, text) in enumerate(seeds):
         # the unmutated seed must be accepted (otherwise the neighbourhood is not around a valid schema)
-        for desc, opclass, xml in itertools.chain([("seed", "seed", text)], xmlmut.mutants(text, quick=quick)):
+        for desc, opclass, xml in itertools.chain([("seed", "seed", text)], xmlmut.mutants(text, quick=quick, rich_add=(not quick and si < 3), add=(not quick or si in (1, 2)))):
             n += 1
             jobs.append(("%s: %s" % (sname, desc), opclass, "xml", xml.encode("utf-8", "surrogatepass") if isinstance(xml, str) else xml, None))
     for name, raw in xmlmut.RAW_INPUTS:
@@ -112,6 +112,16 @@ def run(tier, replay=None):
            ("include of a valid schema", {"a.xml": '<?xml version="1.0"?><messageSchema package="p" id="1" version="0"><include href="g.xml"/></messageSchema>', "g.xml": good})]
     for name, files in inc:
         jobs.append(("include: " + name, "include-graph", "files", files, None))
+    # every include graph over a root and two fragment files with up to two includes each (cycles through a first, a
+    # second, or both includes; diamonds; repeated includes)
+    targets = ["b.xml", "c.xml", "g.xml"] + ([] if quick else ["a.xml", "./c.xml"])
+    lists = [()] + [(t,) for t in targets] + list(itertools.product(targets, repeat=2))
+    frag = lambda incs: '<?xml version="1.0"?>' + "".join('<include href="%s"/>' % t for t in incs) if incs else '<?xml version="1.0"?><types/>'
+    for bl in lists:
+        for cl in lists:
+            files = {"a.xml": '<?xml version="1.0"?><messageSchema package="p" id="1" version="0"><include href="b.xml"/><include href="c.xml"/></messageSchema>',
+                     "b.xml": frag(bl), "c.xml": frag(cl), "g.xml": good}
+            jobs.append(("include-graph: b->%s c->%s" % (list(bl), list(cl)), "include-graph-enum", "files", files, None))
     # argv
     alphabet = ["--schema-name", "--output-dir", "--inject-include", "--version", "--help", "--", "-x", "", "good.xml", "missing.xml", "dir/"]
     for ln in range(0, (3 if quick else 4) + 1):
